@@ -638,7 +638,25 @@ pub fn run(ctx: &crate::RunCtx) -> (Summary, Vec<Violation>) {
                 sum.distinct_nontrivial += 1;
                 *sum.ops_hist.entry(format!("C_{sink}{}", if prefix_bits > 0 { "_unaligned_start" } else if after_failed_write { "_after_failed_write" } else { "" })).or_default() += 1;
                 let ops0 = seam_ops;
-                let verdict = run_comp_case(&comp, &case, &mut seam_ops);
+                let mut verdict = run_comp_case(&comp, &case, &mut seam_ops);
+                if verdict.is_some() {
+                    // report what the case does on its own (fresh thread): the replay file is one case in
+                    // a fresh process; a difference that needs what EARLIER cases left behind on this
+                    // thread is a matter of call history (C10), counted here and not reported
+                    let alone = std::thread::scope(|sc| {
+                        sc.spawn(|| {
+                            let mut o = 0;
+                            run_comp_case(&comp, &case, &mut o)
+                        })
+                        .join()
+                        .ok()
+                        .flatten()
+                    });
+                    if alone.is_none() {
+                        *sum.probes.entry("violation_not_reproducible_in_isolation_skipped".into()).or_default() += 1;
+                    }
+                    verdict = alone;
+                }
                 sum.note(n_case, (seam_ops - ops0) ^ verdict.as_ref().map_or(0, |v| crate::rng::fnv(&v.class)));
                 if let Some(v) = verdict {
                     *sum.classes.entry(v.class.clone()).or_default() += 1;
